@@ -165,6 +165,11 @@ def fam_batch(ctx, rng):
             if p.returncode != 0:
                 ctx.violation("exception:cli", "the command line interface exited with an error", stderr=p.stderr[-1500:], **info)
                 continue
+            for e in events:
+                if e["ev"] == "lines":
+                    for fn_, ls in e["reached"].items():
+                        ctx.extra_lines.setdefault(fn_, set()).update(ls)
+                    ctx.extra_totals.update(e["totals"])
             sched, calls = schedule_of(events)
             done = sorted(os.path.basename(e["file"]) for e in calls)
             ctx.check(done == sorted(batch) and len([e for e in events if e["ev"] == "return"]) == len(batch),
